@@ -1,6 +1,6 @@
 (* C13 — insertion-ordered dict mode is scoped to its namespace and with-block. *)
-From OptreeModel Require Import Base Tree Flatten Registry.
-From OptreeProofs Require Import RegistryProofs OrderOfLeaves.
+From OptreeModel Require Import Base Tree Flatten Unflatten Registry.
+From OptreeProofs Require Import RegistryProofs OrderOfLeaves RecordedNs.
 
 (* When a block exits — normally or by exception, at any nesting depth and for any interleaving of
    blocks over different namespaces — the mode of every namespace is exactly what it was before the
@@ -32,6 +32,29 @@ Print Assumptions C13_dict_visit_order.
 Theorem C13_ordereddict_unaffected : forall c ks, visit_keys c KdODict ks = ks.
 Proof. exact ordereddict_insertion_order. Qed.
 Print Assumptions C13_ordereddict_unaffected.
+
+(* "THE RESULTS STILL ROUND-TRIP": the namespace a treespec records is enough to re-flatten with. For
+   every configuration (registry, mode set, predicate, none_is_leaf) flattening the same tree under the
+   namespace the treespec RECORDED — which is '' unless a custom node was found or the requested
+   namespace's own flag is on — returns the same leaves in the same order and the same treespec; so
+   do the rebuilt tree and the with-path traversal. (A traversal that forgot to record a namespace
+   whose own flag decided the key order would break this.) *)
+Theorem C13_reflatten_under_recorded_namespace :
+  forall c o ls sp, flatten c o = Ok (ls, sp) -> flatten (set_ns c (sns sp)) o = Ok (ls, sp).
+Proof. exact reflatten_under_recorded_namespace. Qed.
+Print Assumptions C13_reflatten_under_recorded_namespace.
+
+Theorem C13_rebuilt_reflattens_under_recorded_namespace :
+  forall c o ls sp, wf_obj o = true -> flatten c o = Ok (ls, sp) ->
+  exists o', unflatten sp ls = Ok o' /\ flatten (set_ns c (sns sp)) o' = Ok (ls, sp).
+Proof. exact rebuilt_reflattens_under_recorded_namespace. Qed.
+Print Assumptions C13_rebuilt_reflattens_under_recorded_namespace.
+
+Theorem C13_with_path_reflattens_under_recorded_namespace :
+  forall c o ps ls sp, flatten_with_path c o = Ok (ps, ls, sp) ->
+  exists ps', flatten_with_path (set_ns c (sns sp)) o = Ok (ps', ls, sp) /\ length ps' = length ls.
+Proof. exact with_path_reflattens_under_recorded_namespace. Qed.
+Print Assumptions C13_with_path_reflattens_under_recorded_namespace.
 
 Example C13_example :
   let p := MWith true 1 [MObserve; MWith false 0 [MObserve; MWith true 2 [MObserve] true] false; MObserve] false in
